@@ -65,8 +65,10 @@ def confirm(src, sid, prop):
     res["demo_output_tail"] = out[-600:]
     # 3. the existing suite, unedited, still passes with the change
     os.unlink(os.path.join(WT, "tests/zz_demo.rs"))
-    rc, out = sh("cargo test --workspace --no-fail-fast --offline 2>&1 | grep -E '^test result|FAILED|failed|error' | head -20", cwd=WT, env=cargo_env(), timeout=3600)
-    res["suite_passes_with_change"] = ("test result: ok" in out) and ("FAILED" not in out) and ("failed" not in out) and ("error" not in out)
+    rc, out = sh("cargo test --workspace --no-fail-fast --offline 2>&1 | grep -E '^test result|FAILED|^error' | head -20", cwd=WT, env=cargo_env(), timeout=3600)
+    import re
+    nres = len(re.findall(r"test result: ok\. \d+ passed; 0 failed", out))
+    res["suite_passes_with_change"] = nres >= 5 and ("FAILED" not in out) and ("error" not in out)
     res["suite_summary"] = out.strip().splitlines()[:8]
     ensure_wt()
     ok = res["demo_passes_without_change"] and res["demo_fails_with_change"] and res["suite_passes_with_change"]
